@@ -101,7 +101,10 @@ def expectedHeader (q : Select) (fields : List Field) : Option (List Bytes) :=
 
 def implHeader (o : String) : List String :=
   match words o with
-  | ["ok", h] => ((h.drop 4).toString.splitOn ",").map fun f => ((f.splitOn ".").getLast?).getD ""
+  | ["ok", h] =>
+    -- `hdr=` alone is the header of a table without columns: no field, not one field with an empty name
+    let t := (h.drop 4).toString
+    if t.isEmpty then [] else (t.splitOn ",").map fun f => ((f.splitOn ".").getLast?).getD ""
   | _ => []
 
 def judgeLine (j : J) (op : String) (outs : List String) : J × List String :=
